@@ -26,6 +26,12 @@ CHECKS = {
  "C13": dict(level="exploration", technique="property-based testing (proptest): generated notes with multi-byte text and CRLF, position probes derived from an independent offset-tracking scan and own UTF-16 line table",
    text="For every link of a generated note the harness computes the LSP span from byte offsets with its own line table and probes inside / outside positions: definition and prepare-rename must act exactly inside, go to the resolved note, return the destination range; symbol lines must be heading lines.",
    note="Boundary positions of a span are not judged; single-line links only.", ref="7/C13"),
+ "C15": dict(level="exploration", technique="property-based testing (proptest): generated (key, directory, url) triples, round-trip laws against the harness's own path algebra, plus export and completion checks on generated layouts",
+   text="Write/read and read/write laws of the relative-link functions for keys and directories of depth 0-5 with shared-prefix names, and end-to-end: block references in four container positions of a note in D are exported and must still resolve to K; completion items must resolve to existing notes.",
+   note="Trusted: the harness's path algebra (resolve/relative, unit-tested).", ref="7/C15"),
+ "C16": dict(level="exploration", technique="property-based testing (proptest) over configurations: differential oracle of one id-free canonical dump across rayon pool sizes, a generated insertion permutation and separate child processes",
+   text="The same generated library (20-160 notes with ties) is dumped under rayon pools of 1/2/3/8/16 threads, with insert_document in a permuted order, and in four fresh processes (fresh hash seeds); all dumps must be byte-identical.",
+   note="Pool sizes and hash seeds are sampled, not enumerated; paths() is compared sorted (ordered by arena ids).", ref="7/C16"),
  "C17": dict(level="exploration", technique="property-based testing (proptest): generated reference graphs (trees, sharing, cycles, self-loops, dangling), own recursive expansion model compared with Graph::squash modulo sibling order, token-multiplicity check on the exported text, watchdog for termination",
    text="For generated libraries and depths 0-6 (up to 255 on chains and self-loops) the squashed tree must equal the harness's own depth-bounded expansion of the notes' trees modulo sibling order, and the rebuilt, exported text must contain every word token with the predicted multiplicity.",
    note="The notes' own section structure is taken from Graph::collect (C07 judges it); the expansion recursion is the harness's own.", ref="7/C17"),
